@@ -946,6 +946,12 @@ func (P *Prog) decideInvoke(r *Result, g *modCG, fn *ssa.Function, s panicSite, 
 		if al, ok := x.X.(*ssa.Alloc); ok && P.isDataProviderIface(al.Type().(*types.Pointer).Elem()) {
 			why = "data provider: decided by C06/nil-provider"
 		}
+		// a provider variable of the enclosing function captured by this closure
+		if fv, ok := x.X.(*ssa.FreeVar); ok && P.isDataProviderIface(recv.Type()) {
+			if _, isAl := freeVarBinding(fv).(*ssa.Alloc); isAl {
+				why = "data provider: decided by C06/nil-provider"
+			}
+		}
 	}
 	if why == "" {
 		if tnt, via := P.inputTainted(g, fn, recv); tnt {
